@@ -35,6 +35,7 @@ type fakeServer struct {
 	ctrl    *bkCtrl // fail-backup schedules: every dial and every arriving request is reported, answers are held
 	wmu     sync.Mutex
 	byArg   map[string]string // when set: the action is chosen by the request's payload, not by arrival order
+	fixed   string            // when set: every request gets this action
 }
 
 // events of a fail-backup schedule, in the order they happen
@@ -152,6 +153,9 @@ func (s *fakeServer) serve(conn net.Conn) {
 		}
 		if s.byArg != nil {
 			act = s.byArg[string(f.Raw)]
+		}
+		if s.fixed != "" {
+			act = s.fixed
 		}
 		delay := s.delayMs
 		onCtx := s.onCtx
